@@ -153,3 +153,11 @@ Theorem C05_eager_skip_refuted :
   run true = Some (mktok KB 0) /\ run false = Some (mktok KWs 0).
 Proof. vm_compute. split; reflexivity. Qed.
 Print Assumptions C05_eager_skip_refuted.
+
+(** what a sub-lex mark does when a look-ahead is buffered: it re-marks the parse and token starts at the cursor and
+    touches nothing else - the filtered tokens in front of the look-ahead are not passed *)
+Theorem C05_sublex_with_lookahead_moves_only_the_marks :
+  forall lx b, c_buf lx = Some b ->
+  c_start_sublex lx = Ok (mklex (c_text lx) (c_met lx) (c_sc lx) (c_filter lx) (c_rec lx) (Some b) (c_cur lx) (c_cur lx) (c_cur lx)).
+Proof. exact sublex_with_lookahead. Qed.
+Print Assumptions C05_sublex_with_lookahead_moves_only_the_marks.
